@@ -763,3 +763,325 @@ def nat_lazy_vs_stepwise(h):
     for junk in (5, object(), 3.5):
         r = h.run(lambda: Flow([{'a': 1}], junk).results())
         h.check(r[0] == 'exc', 'dataflows/base/flow.py::Flow._chain', repr(junk), 'rejected', r[:2])
+
+
+# ------------------------------------------------------------------------------------------------ get_iterator / get_res / ResourceWrapper
+
+def sym_get_res(vc):
+    """DataStreamProcessor.get_res(current_dp, name): the step's own package is asked first, the upstream package only when
+    the step's package does not know the name; a name neither knows is an AssertionError (never None)"""
+    import z3
+    from pyvc.api import check, cover, Opaque, sym_str, sym_bool, IntS
+    from pyvc.symex import PyExc
+    fk = vc.under_contract(B + 'datastream_processor.py', ['DataStreamProcessor', 'get_res'])
+
+    def thunk(it):
+        d = mk_dsp(it)
+        name = sym_str(it, 'name')
+        asked = []
+
+        def mk_pkg(tag):
+            p = Opaque('Package', tag)
+            found = it.fresh('found_' + tag, z3.BoolSort())
+
+            def get_resource(it_, o, a, k):
+                asked.append((tag, a[0]))
+                if it_.branch(found):
+                    r = Opaque('Resource', tag + '.res')
+                    return r
+                return None
+            p.attrs['call:get_resource'] = get_resource
+            p.found = found
+            return p
+        own, up = mk_pkg('own'), mk_pkg('up')
+        d.attrs['datapackage'] = own
+        try:
+            r = it.call(it.lib.getattr_(it, d, 'get_res'), [up, name])
+        except PyExc as pe:
+            check(it, 'unknown-name-is-an-assertion-error', z3.And(z3.BoolVal(pe.exc.cls == 'AssertionError'),
+                                                                    z3.Not(own.found), z3.Not(up.found)))
+            return
+        check(it, 'own-package-asked-first-with-the-name', len(asked) >= 1 and asked[0][0] == 'own' and asked[0][1] is name)
+        check(it, 'result-from-own-package-when-it-knows-the-name',
+              z3.Implies(own.found, z3.BoolVal(isinstance(r, Opaque) and r.name == 'own.res' and len(asked) == 1)))
+        check(it, 'result-from-upstream-package-otherwise',
+              z3.Implies(z3.Not(own.found), z3.BoolVal(isinstance(r, Opaque) and r.name == 'up.res' and len(asked) == 2
+                                                       and asked[-1][0] == 'up' and asked[-1][1] is name)))
+        check(it, 'never-none', r is not None)
+        cover(it, 'found-reachable')
+    vc.explore(fk, thunk, min_paths=3)
+
+
+def sym_resource_wrapper(vc):
+    """ResourceWrapper(res, it): keeps exactly these two objects; res must be a Resource (None or anything else is an
+    AssertionError); iter(wrapper) is the very iterator it was given"""
+    from pyvc.api import real_function, check, cover, Opaque, Instance
+    from pyvc.symex import PyExc
+    fk = vc.under_contract(B + 'resource_wrapper.py', ['ResourceWrapper', '__init__'])
+    vc.under_contract(B + 'resource_wrapper.py', ['ResourceWrapper', '__iter__'])
+
+    def thunk(it):
+        RW = real_function(it, 'dataflows.base.resource_wrapper', 'ResourceWrapper')
+        kind = it.decide(3, lambda i: True)
+        res = [Opaque('Resource', 'res'), None, Opaque('Iterator', 'not_a_resource')][kind]
+        rows = Opaque('Iterator', 'rows')
+        try:
+            w = it.call(RW, [res, rows])
+        except PyExc as pe:
+            check(it, 'only-a-non-resource-is-rejected-and-by-assertion', pe.exc.cls == 'AssertionError' and kind != 0)
+            return
+        check(it, 'non-resource-never-accepted', kind == 0)
+        check(it, 'keeps-res-and-it', isinstance(w, Instance) and w.attrs.get('res') is res and w.attrs.get('it') is rows)
+        r = it.call(it.lib.getattr_(it, w, '__iter__'), [])
+        check(it, 'iter-is-the-given-iterator', r is rows)
+        cover(it, 'accept-reachable')
+    vc.explore(fk, thunk, min_paths=3)
+
+
+def sym_get_iterator(vc):
+    """DataStreamProcessor.get_iterator(datastream) -> func; LazyIterator defers func to the first iteration.
+       func():  (1) nothing is pulled from upstream and process_resources is called exactly once, with a lazy stream;
+                (2) the k-th element of that stream wraps the k-th upstream iterator (the same object) with
+                    get_res(upstream package, upstream resource name);
+                (3) the k-th output pairs the k-th resource of the step's package with the k-th value produced by
+                    process_resources: a ResourceWrapper is passed on as is, anything else is wrapped with that resource;
+                    more streams than resources is an AssertionError (nothing silently dropped), fewer streams than
+                    resources still yields one wrapper per resource (the missing stream is None and fails when read)."""
+    import z3
+    from pyvc.api import real_function, check, cover, Opaque, UFunc, Stream, SymSeq, SymList, Instance, IntS, SV, LoopSpec, term
+    from pyvc.symex import PyExc
+    from pyvc import lib
+    fk = vc.under_contract(B + 'datastream_processor.py', ['DataStreamProcessor', 'get_iterator'])
+    vc.under_contract(B + 'datastream_processor.py', ['DataStreamProcessor', 'get_iterator', 'func'])
+    vc.under_contract(B + 'datastream_processor.py', ['LazyIterator', '__iter__'])
+
+    def setup(it):
+        d = mk_dsp(it)
+        # the step's processed package: n resources, addressed by position
+        nres = it.fresh('nres', IntS)
+        it.assume(nres >= 0)
+
+        def mk_res(it_):
+            return Opaque('Resource', 'own.res[?]'), None
+        seq = SymSeq('own.resources', it.fresh('own.resources', IntS), mk_res)
+        seq.length = nres
+
+        def at(it_, i):
+            r = Opaque('Resource', 'own.res[k]')
+            r.index = i
+            return r
+        seq.at = at
+        own = Opaque('Package', 'own')
+        own.attrs['resources'] = SymList(seq, [])
+        d.attrs['datapackage'] = own
+        # upstream datastream
+        up_dp = Opaque('Package', 'up_dp')
+        ups = []
+
+        def mk_up(it_):
+            rw = Opaque('ResourceWrapper', 'up_rw%d' % len(ups))
+            res = Opaque('Resource', 'up_res%d' % len(ups))
+            res.attrs['name'] = SV(it_.fresh('up_name', lib.StrS))
+            rw.attrs['res'] = res
+            rw.attrs['it'] = Opaque('Iterator', 'up_it%d' % len(ups))
+            ups.append(rw)
+            return rw
+        up_stream = Stream('upstream.res_iter', mk_up)
+        ds = Opaque('DataStream', 'upstream_ds')
+        ds.attrs.update(dp=up_dp, res_iter=up_stream)
+        got_res = []
+
+        def get_res(it_, a, k):
+            r = Opaque('Resource', 'get_res#%d' % len(got_res))
+            got_res.append((a[0], a[1], r))
+            return r
+        d.attrs['get_res'] = UFunc('get_res', get_res, False)
+        pr_calls = []
+        outs = []
+
+        def mk_out(it_):
+            if it_.decide(2, lambda i: True) == 0:
+                o = Opaque('ResourceWrapper', 'step_rw%d' % len(outs))
+            else:
+                o = Opaque('generator', 'step_gen%d' % len(outs))
+            outs.append(o)
+            return o
+        out_stream = Stream('process_resources.result', mk_out)
+
+        def process_resources(it_, a, k):
+            pr_calls.append(a[0])
+            return out_stream
+        d.attrs['process_resources'] = UFunc('process_resources', process_resources, False)
+        return d, ds, up_dp, up_stream, ups, got_res, pr_calls, outs, nres
+
+    def pulls(it, name):
+        return [e for e in it.path.events if e.kind == 'Pull' and e.src == name]
+
+    def thunk_lazy(it):
+        d, ds, up_dp, up_stream, ups, got_res, pr_calls, outs, nres = setup(it)
+        func = it.call(it.lib.getattr_(it, d, 'get_iterator'), [ds])
+        check(it, 'get_iterator-itself-does-nothing', not pr_calls and not pulls(it, up_stream.name) and not got_res)
+        LI = real_function(it, 'dataflows.base.datastream_processor', 'LazyIterator')
+        li = it.call(LI, [func])
+        check(it, 'lazy-iterator-construction-does-nothing', not pr_calls and not pulls(it, up_stream.name))
+        r = it.call(it.lib.getattr_(it, li, '__iter__'), [])
+        check(it, 'process_resources-called-exactly-once-with-a-lazy-stream',
+              len(pr_calls) == 1 and isinstance(pr_calls[0], lib.GenExp))
+        check(it, 'nothing-pulled-from-upstream-before-the-consumer-asks', not pulls(it, up_stream.name) and not got_res
+              and not up_stream.drained)
+        check(it, 'result-is-a-lazy-stream', isinstance(r, lib.GenExp))
+        cover(it, 'reachable')
+
+    def inner_end(it, env, cap, evs):
+        ys = [e for e in evs if e.kind == 'Yield']
+        st = it.path.info['gi']
+        ups, got_res, up_dp = st['ups'], st['got_res'], st['up_dp']
+        check(it, 'one-wrapper-per-upstream-resource', len(ys) == 1 and len(ups) == 1)
+        w = ys[0].obj if ys else None
+        check(it, 'wrapper-carries-the-very-upstream-iterator', isinstance(w, Instance) and w.cls.name == 'ResourceWrapper'
+              and w.attrs.get('it') is ups[0].attrs['it'])
+        check(it, 'wrapper-resource-is-get_res-of-upstream-package-and-upstream-name',
+              len(got_res) == 1 and got_res[0][0] is up_dp and got_res[0][1] is ups[0].attrs['res'].attrs['name']
+              and isinstance(w, Instance) and w.attrs.get('res') is got_res[0][2])
+        cover(it, 'inner-reachable')
+
+    def thunk_inner2(it):
+        d, ds, up_dp, up_stream, ups, got_res, pr_calls, outs, nres = setup(it)
+        it.path.info['gi'] = dict(ups=ups, got_res=got_res, up_dp=up_dp)
+        # ResourceWrapper's isinstance assertion needs get_res results to be Resources: they are (Opaque kind Resource)
+        func = it.call(it.lib.getattr_(it, d, 'get_iterator'), [ds])
+        it.call(func, [])
+        it.lib.yield_from(it, pr_calls[0])
+
+    def outer_end(it, env, cap, evs):
+        ys = [e for e in evs if e.kind == 'Yield']
+        st = it.path.info['gi']
+        outs = st['outs']
+        k = it.path.info['count:' + st['label']]
+        check(it, 'one-output-per-pair', len(ys) == 1)
+        w = ys[0].obj if ys else None
+        src = st['src']()
+        a_present, b_present = src.present
+        if b_present and outs and outs[0].kind == 'ResourceWrapper':
+            check(it, 'a-resource-wrapper-from-the-step-is-passed-on-as-is', w is outs[0])
+        else:
+            ok = isinstance(w, Instance) and w.cls.name == 'ResourceWrapper' and a_present \
+                and getattr(w.attrs.get('res'), 'name', None) == 'own.res[k]'
+            check(it, 'anything-else-is-wrapped-with-the-kth-resource-of-the-step-package',
+                  (term(w.attrs['res'].index, IntS) == k) if ok else False)
+            check(it, 'wrapped-iterator-is-the-kth-value-of-process_resources',
+                  isinstance(w, Instance) and w.attrs.get('it') is (outs[0] if b_present else None))
+        cover(it, 'outer-reachable')
+
+    def thunk_outer(it):
+        d, ds, up_dp, up_stream, ups, got_res, pr_calls, outs, nres = setup(it)
+        it.path.info['gi'] = dict(outs=outs, label=TOP, src=lambda: (it.path.info.get('zip_sources') or [None])[-1])
+        func = it.call(it.lib.getattr_(it, d, 'get_iterator'), [ds])
+        r = it.call(func, [])
+        try:
+            it.lib.yield_from(it, r)
+        except PyExc as pe:
+            srcv = it.path.info['gi']['src']()
+            a_present, b_present = srcv.present
+            check(it, 'only-a-stream-without-a-resource-is-rejected-and-loudly',
+                  pe.exc.cls == 'AssertionError' and (not a_present) and b_present and outs[0].kind != 'ResourceWrapper')
+            return
+        srcv = it.path.info['gi']['src']()
+        if it.path.seg and it.path.seg[-1][1] == 'exit':
+            n = it.path.info['count:' + TOP]
+            check(it, 'at-exhaustion-every-resource-of-the-step-package-got-a-wrapper', n >= srcv.lens[0])
+            check(it, 'at-exhaustion-every-value-of-process_resources-was-paired-or-rejected', n >= srcv.lens[1])
+            cover(it, 'exhaustion-reachable')
+
+    TOP = '<top>#X0'
+    vc.explore(fk, thunk_lazy, min_paths=1)
+    vc.explore(fk, thunk_inner2, min_paths=2, loops={TOP: LoopSpec(at_end=inner_end)})
+    vc.explore(fk, thunk_outer, min_paths=3, loops={TOP: LoopSpec(at_end=outer_end)})
+
+
+# ------------------------------------------------------------------------------------------------ iterable_storage.describe / iter
+
+def sym_iterable_storage(vc):
+    """iterable_storage.describe(_, descriptor) / iter(_):
+         * a descriptor given by the caller is returned untouched and nothing is pulled
+         * the first describe pulls AT MOST SAMPLE_SIZE rows (a class constant, not a function of the data) in ONE take, and
+           re-chains exactly those rows, first and in order, in front of the not yet consumed rest: no row lost, none repeated
+         * a second describe pulls nothing (the schema is cached)
+         * iter(_) hands out that re-chained iterable itself (nothing pulled, no copy)
+         * field names are the keys of the first sampled row, each typed by field_type over that column of the sample"""
+    import z3
+    from pyvc.api import real_function, check, cover, row_stream, UFunc, SV, StrS, IntS, PyDict, PyList, term, Opaque
+    from pyvc import lib
+    fk = vc.under_contract('dataflows/helpers/iterable_loader.py', ['iterable_storage', 'describe'])
+    vc.under_contract('dataflows/helpers/iterable_loader.py', ['iterable_storage', 'iter'])
+    vc.under_contract('dataflows/helpers/iterable_loader.py', ['iterable_storage', '__init__'])
+
+    def takes(evs):
+        return [e for e in evs if e.kind in ('Take', 'Pull', 'Drain', 'PullRaises')]
+
+    def thunk(it):
+        IS = real_function(it, 'dataflows.helpers.iterable_loader', 'iterable_storage')
+        may_raise = it.decide(2, lambda i: True) == 1
+        rows = row_stream(it, 'src')
+        rows.may_raise = may_raise
+        st = it.call(IS, [rows])
+        ft_calls = []
+
+        def field_type(it_, a, k):
+            r = SV(it_.fresh('ftype', StrS))
+            ft_calls.append((a, r))
+            return r
+        st.cls.methods['field_type'] = UFunc('field_type', field_type, True)
+        check(it, 'constructor-pulls-nothing', not takes(it.path.events) and st.attrs.get('iterable') is rows
+              and st.attrs.get('schema') is None)
+        mode = it.decide(2, lambda i: True)
+        if mode == 0:
+            given = PyDict({'fields': PyList([])})
+            r = it.call(it.lib.getattr_(it, st, 'describe'), [None, given])
+            check(it, 'given-descriptor-returned-untouched-nothing-pulled', r is given and not takes(it.path.events)
+                  and st.attrs.get('iterable') is rows)
+            return
+        n0 = len(it.path.events)
+        r = it.call(it.lib.getattr_(it, st, 'describe'), [None])
+        tk = takes(it.path.events[n0:])
+        raised = [e for e in tk if e.kind == 'PullRaises']
+        check(it, 'one-take-no-other-pull', len(tk) == 1 and tk[0].kind in ('Take', 'PullRaises'))
+        if tk and tk[0].kind == 'Take':
+            check(it, 'take-bounded-by-a-constant-independent-of-the-data', isinstance(tk[0].n, int) and not isinstance(tk[0].n, bool)
+                  and tk[0].src is rows)
+            ln = tk[0].length
+            cur = st.attrs.get('iterable')
+            if cur is rows:
+                # only legal when nothing was taken
+                check(it, 'iterable-kept-only-if-the-sample-is-empty', ln == 0)
+            else:
+                ok = cur.__class__.__name__ == 'ChainV' and len(cur.parts) == 2 and \
+                    isinstance(cur.parts[0], lib.SymList) and not cur.parts[0].items and \
+                    getattr(cur.parts[0].prefix, 'taken_from', None) is rows and cur.parts[1] is rows
+                check(it, 'sample-rechained-first-then-the-rest', ok)
+            sch = st.attrs.get('schema')
+            check(it, 'schema-cached-and-returned', sch is r and isinstance(sch, PyDict) and 'fields' in sch.d)
+            f = sch.d.get('fields') if isinstance(sch, PyDict) else None
+            if isinstance(f, lib.CompSeq):
+                el = f.elem
+                check(it, 'one-field-per-key-of-the-first-row-named-by-it', isinstance(el, PyDict) and set(el.d) == {'name', 'type'}
+                      and len(f.vars) == 1 and isinstance(el.d['name'], SV) and el.d['name'].t.eq(f.vars[0]) and not f.conds)
+                check(it, 'field-type-from-field_type-of-that-column', len(ft_calls) == 1 and isinstance(el.d.get('type'), SV)
+                      and el.d['type'] is ft_calls[0][1])
+                cover(it, 'nonempty-sample-reachable')
+            else:
+                check(it, 'no-fields-only-for-an-empty-sample', z3.And(ln == 0, z3.BoolVal(isinstance(f, PyList) and not f.items)))
+        elif raised:
+            # upstream failed while sampling: handle_iterable records it and process_datapackage re-raises (C04 contract)
+            sch = st.attrs.get('schema')
+            check(it, 'failed-sampling-leaves-an-empty-schema', isinstance(sch, PyDict) and isinstance(sch.d.get('fields'), PyList)
+                  and not sch.d['fields'].items)
+        # second describe: cached
+        n1 = len(it.path.events)
+        r2 = it.call(it.lib.getattr_(it, st, 'describe'), [None])
+        check(it, 'second-describe-pulls-nothing-and-returns-the-cached-schema', not takes(it.path.events[n1:]) and r2 is r)
+        cur = st.attrs.get('iterable')
+        r3 = it.call(it.lib.getattr_(it, st, 'iter'), [None])
+        check(it, 'iter-hands-out-the-rechained-iterable-itself', r3 is cur and not takes(it.path.events[n1:]))
+        cover(it, 'reachable')
+    vc.explore(fk, thunk, min_paths=4)
